@@ -43,7 +43,7 @@ theorem simplify_output_values (g : MG Name) (e ev : Event) (h : simplify g e = 
           have hR' := reduceReflexive_eq _ R' hr
           subst hR'
           cases h2 : anyInconsistent (removeRepeated (splitReflexive me).2)
-              (reduceKeyed (removeRepeated (splitReflexive me).1) []) with
+              (dropNone (reduceKeyed (removeRepeated (splitReflexive me).1) [])) with
           | error err => rw [h2] at h; cases h
           | ok b2 =>
             rw [h2] at h
@@ -55,7 +55,7 @@ theorem simplify_output_values (g : MG Name) (e ev : Event) (h : simplify g e = 
               | error err => rw [ha] at h; cases h
               | ok a =>
                 rw [ha] at h
-                cases hb : popAll (reduceKeyed (removeRepeated (splitReflexive me).1) []) with
+                cases hb : popAll (dropNone (reduceKeyed (removeRepeated (splitReflexive me).1) [])) with
                 | error err => rw [hb] at h; cases h
                 | ok b =>
                   rw [hb] at h
@@ -69,7 +69,7 @@ theorem simplify_output_values (g : MG Name) (e ev : Event) (h : simplify g e = 
                     obtain ⟨hm, _⟩ := splitReflexive_snd me (k, x) (removeRepeated_has _ k x hhas)
                     exact hmeVar k x hm
                   · obtain ⟨rest, hent⟩ := (popAll_ok _ _ hb k x).1 hp
-                    rcases (reduceKeyed_has _ _ k x).1 ⟨_, hent, by simp⟩ with h0 | ⟨q, hq, hk, hxq⟩
+                    rcases (reduceKeyed_has _ _ k x).1 (dropNone_has _ k x ⟨_, hent, by simp⟩) with h0 | ⟨q, hq, hk, hxq⟩
                     · exact absurd h0 (VMap.has_nil _ _)
                     · obtain ⟨hm, _⟩ := splitReflexive_fst me (q.1, x) (removeRepeated_has _ q.1 x ⟨q.2, hq, hxq⟩)
                       obtain ⟨q0, hq0, hname, hval⟩ := hmeVar q.1 x hm
